@@ -376,6 +376,8 @@ class Run:
         if k == "set_debug":
             twz_cfg.RUN_DEBUG_NODES = bool(op["value"])
             return None
+        if k == "snapshot":
+            return self.snapshot_dag(self.instances[op["inst"]])
         if k == "results_keys":
             return sorted(self.instances[op["inst"]].results.keys())
         if k == "cprio":
